@@ -151,9 +151,11 @@ func (as *NodeNameSpace) Attribute(id *ua.NodeID, attr ua.AttributeID) *ua.DataV
 			}
 		}
 		// TODO: we need int32 instead of uint32 here.  this isn't the right place to fix it, but it is a bandaid
-		x, ok := a.Value.Value.Value().(uint32)
-		if ok {
-			a.Value.Value = ua.MustVariant(int32(x))
+		if a.Value != nil && a.Value.Value != nil {
+			x, ok := a.Value.Value.Value().(uint32)
+			if ok {
+				a.Value.Value = ua.MustVariant(int32(x))
+			}
 		}
 	default:
 		a, err = n.Attribute(attr)
